@@ -385,12 +385,16 @@ type c25cOp struct {
 }
 
 type c25cCase struct {
+	// Eager > 0: the gateway's proper answers (steps "ack") and nothing else are unaffected; packets of
+	// the script are injected as before, but the client's writes are observed from the write hook (the
+	// writer yields Eager-1 times there), which changes how its goroutines interleave
+	Eager       int      `json:"eager,omitempty"`
 	KeepAliveMs int      `json:"keepalive_ms"`
 	Steps       []c25cOp `json:"steps"`
 }
 
 func genC25Client(t *rapid.T) c25cCase {
-	c := c25cCase{KeepAliveMs: rapid.SampledFrom([]int{0, 0, 1000}).Draw(t, "keepalive")}
+	c := c25cCase{KeepAliveMs: rapid.SampledFrom([]int{0, 0, 1000}).Draw(t, "keepalive"), Eager: rapid.SampledFrom([]int{0, 0, 0, 1, 4, 11}).Draw(t, "eager")}
 	n := rapid.IntRange(1, 40).Draw(t, "n")
 	for i := 0; i < n; i++ {
 		switch k := rapid.IntRange(0, 9).Draw(t, "kind"); {
@@ -511,6 +515,9 @@ func TestC25Gateway(t *testing.T) {
 				return
 			}
 			s.Respond = nil // from now on only the script talks
+			if c.Eager > 0 {
+				s.SetEager(c.Eager - 1)
+			}
 			var inflight []*clsim.CallState
 			for _, st := range c.Steps {
 				switch {
